@@ -1,17 +1,24 @@
 #!/bin/bash
-# usage: tools/verify_seed.sh <worktree> <seed-subdir> <PROPERTY> [more properties to run...]
+# usage: tools/verify_seed.sh <dir-with-seed_out> <seed-subdir> <PROPERTY> [more properties to run...]
 # Confirms an independently produced breaking change (demo passes clean, tests pass with it, demo
-# fails with it), then runs the checks against /repo with the patch applied and reverts it.
+# fails with it) in a private scratch worktree of /repo, then runs the checks against /repo with
+# the patch applied and reverts it.  The producer's own worktree is only read.
 set -u
-wt=$1; sd=$2; shift 2
-P="$wt/seed_out/$sd"
+src=$1; sd=$2; shift 2
+P="$src/seed_out/$sd"
+wt=/tmp/vs-wt-$$
+git -C /repo worktree add -q --detach "$wt" HEAD || exit 2
+cp /repo/gtwrap/matlab_wrapper/matlab_wrapper.tpl "$wt/gtwrap/matlab_wrapper/" 2>/dev/null
+cleanup() { git -C /repo worktree remove --force "$wt" 2>/dev/null; rm -rf "$wt"; }
+trap cleanup EXIT
 cd "$wt" || exit 2
-git checkout -q -- . 2>/dev/null
-echo "--- demo on clean tree"; PYTHONPATH=$wt timeout 600 /venv/bin/python $P/demo.py >/tmp/vs_clean.log 2>&1; c=$?; tail -2 /tmp/vs_clean.log; echo "clean demo exit=$c"
+# demos written by the producers refer to their own worktree path; run them against the private one
+sed "s#$src#$wt#g" "$P/demo.py" > "$wt/_demo.py"
+echo "--- demo on clean tree"; PYTHONPATH=$wt timeout 600 /venv/bin/python _demo.py >/tmp/vs_clean.$$.log 2>&1; c=$?; tail -2 /tmp/vs_clean.$$.log; echo "clean demo exit=$c"
 git apply "$P/patch.diff" || { echo "PATCH DOES NOT APPLY in worktree"; exit 2; }
 echo "--- suite with the change"; PYTHONPATH=$wt /venv/bin/python -m pytest -q -p no:cacheprovider tests 2>&1 | tail -1
-echo "--- demo with the change"; PYTHONPATH=$wt timeout 600 /venv/bin/python $P/demo.py >/tmp/vs_patched.log 2>&1; d=$?; tail -3 /tmp/vs_patched.log; echo "patched demo exit=$d"
-git checkout -q -- .
+echo "--- demo with the change"; PYTHONPATH=$wt timeout 600 /venv/bin/python _demo.py >/tmp/vs_patched.$$.log 2>&1; d=$?; tail -3 /tmp/vs_patched.$$.log; echo "patched demo exit=$d"
+rm -f /tmp/vs_clean.$$.log /tmp/vs_patched.$$.log
 echo "--- checks against /repo with the patch applied"
 if git -C /repo apply --check "$P/patch.diff" 2>/dev/null; then
   git -C /repo apply "$P/patch.diff"
